@@ -1760,6 +1760,40 @@ pub fn c03_terminal(sys: &Sys, ctx: &mut Ctx) {
     }
 }
 
+/// C04 where a script ends by a signal of its own (killed from outside, crashed): every script has ended, so the
+/// one-shot run ends
+pub fn check_c04_signal_deaths(rep: &mut Report) {
+    let mk = move |_: &Cfg| Checks {
+        step: Box::new(noop_step),
+        terminal: Box::new(move |s, c| {
+            if failures(&s.events_from(0)).is_empty() {
+                c04_terminal(s, c);
+            } else {
+                c.count("terminal states after a script died of a signal");
+                if !s.main_done() {
+                    let (fp, detail) = describe_stuck(s);
+                    c.violation(format!("one-shot run never ends after a script died of a signal: {}", fp), format!("{}{}", detail, observation(s)));
+                }
+            }
+            observation(s)
+        }),
+    };
+    let dl = deadline(rep, 150, 1800);
+    let mut v = vec![];
+    for c in small_cfgs(if rep.thorough() { 3 } else { 2 }, 2).into_iter().filter(distinct_roots) {
+        if builds(&c).is_empty() {
+            continue;
+        }
+        let mut f = c.clone();
+        f.may_fail = builds(&c);
+        f.fail_by_signal = true;
+        v.push(f);
+    }
+    let out = sweep(v, &mk, dl, 3_000_000);
+    fill_report(rep, &out, "one-shot, reduced: graphs <=2 targets (3 thorough), every build may be killed by a signal of its own");
+    finalize(rep);
+}
+
 /// C04 on the phase configurations: a one-shot invocation ends, whatever the moment of the build cycle at which a
 /// sibling's failure (or a signal) reaches a target
 pub fn check_phases_c04(rep: &mut Report) {
